@@ -1,4 +1,5 @@
 import Zlink.Proofs.IdlIfaceRT
+import Zlink.Proofs.IdlNE2
 import Zlink.Proofs.JsonStr
 import Zlink.Model.IdlExchange
 import Zlink.Proofs.IdlParsedOK
@@ -84,13 +85,13 @@ theorem C14_exchange (a : Iface) (hok : ifaceOK a = true) (hvi : noVCI a = true)
 /-- **Descriptions obtained by parsing round-trip** (every accepted text): whatever text the parser
     accepts, rendering the resulting description and parsing that rendering gives the same description
     back — e.g. a service that parses an IDL file and serves it through GetInterfaceDescription — provided
-    the result has no commented custom-enum variant (the listed finding) and no variant-less enum (which the
-    parser does not produce; see C13). The well-formedness hypotheses of `C14_parse_render` are *proved*
-    for parser output here, not assumed. -/
-theorem C14_parsed_roundtrip (s : In) (a : Iface) (h : parseInterface s = .ok a) (hne : ifaceNE a = true)
+    the result has no commented custom-enum variant (the listed finding). The well-formedness hypotheses of
+    `C14_parse_render` are *proved* for parser output here, not assumed - including that the parser returns no
+    enum without variants (`C13_no_empty_enum`). -/
+theorem C14_parsed_roundtrip (s : In) (a : Iface) (h : parseInterface s = .ok a)
     (hvc : noVariantComments a = true) :
     parseInterface (renderIface a) = .ok a ∧ IdlExchange.exchange a = some (.ok a) := by
-  obtain ⟨hok, hvi⟩ := ifaceW_OK a (parseInterface_sound s a h) hne
+  obtain ⟨hok, hvi⟩ := ifaceW_OK a (parseInterface_sound s a h) (parseInterface_ne s a h)
   exact ⟨C14_parse_render a hok hvi hvc, C14_exchange a hok hvi hvc⟩
 
 /-- The full statement (kept visible): every well-formed description without commented enum variants
